@@ -55,6 +55,10 @@ func (m *Module) classIdentifierProcessing(
 			p.Fatal(*ctx, err)
 		}
 
+		if nextT == nil {
+			break
+		}
+
 		if nextT.IsEndIdentifier() {
 			break
 		}
